@@ -16,9 +16,10 @@ import tempfile
 
 import compat
 from props.base import corpus_for
+from props import c20_io
 
 ID = 'C20'
-LEAN_MODULES = ['PybtexModel.Props.C20']
+LEAN_MODULES = ['PybtexModel.Props.C20', 'PybtexModel.Props.C20x']
 THEOREMS = {
     'C20_command_shape': 'which lines are \\citation / \\bibstyle / \\bibdata / \\@input lines: the regular expression classifies every line as the specification does; a command line is `\\name{arg}tail` with arg ending at the LAST `}` of the line',
     'C20_comma_lists': 'comma lists expanded: str.split(",") as the code performs it is the unique list of comma-free parts that joins back to the argument',
@@ -37,6 +38,11 @@ THEOREMS = {
     'C20_no_internal_error': 'on every file system, cyclic or not, the parser never dereferences a missing context (no AttributeError) and returns with a context set',
     'C20_case_mismatch_unicode': '"two different spellings of a key" is str.lower() of the interpreter on whole strings (lowerPy), not ASCII: E-acute / e-acute, Cyrillic De, Kelvin sign / k are one key, sharp s / SS are not; final sigma and U+0130 follow the string-level rules',
     'C20_missing_include': 'the non-closed case: the first \\@input (reading order, any depth) whose file cannot be opened ends the parse in the pybtex I/O error naming that file, with exactly the reports of the events read before it; the name is absent from the file system; with nothing missing this unfolding is the complete one',
+    'C20_tables_agree': 'every text the model hard-codes equals the text regenerated from the source on this run (Gen/AuxTables.lean): the regular expression (pattern built from the model\'s alternation; flags = re.UNICODE only), the five AuxDataError messages, the order of the two fatal checks, the location prefix of __str__, the get_context marker, the message format of pybtex.io._open, the WARNING/ERROR prefixes, the split separator, the suffix of the default reader [kernel-evaluated table comparison]',
+    'C20_open_unicode': 'pybtex.io.open_unicode as the reader uses it, for every file system (regular files, directories, absent names, paths through files) and every kpsewhich: an existing regular file is opened itself and kpsewhich is not consulted; otherwise a non-empty answer is opened instead; no or empty answer: the open fails; every failure is "unable to open <name AS WRITTEN>. <strerror of ENOENT/EISDIR/ENOTDIR>" [case analysis of the model of _open/_open_existing]',
+    'C20_reports_located_io': 'C20_reports_located over the file system as pybtex.io presents it: every report of a closed document names the file as written and the line n>=1 of the regular file that was really read (the name itself, or the kpsewhich answer when the name is no regular file); that line stripped is the text shown and is the causing command',
+    'C20_modes': 'report_error through the C16 model Errors.report where the code calls it: the reader in capture mode and in non-strict mode IS parse (all C20 theorems hold for both; channel = captured list resp. warnings printed, exit code 2 iff any); in strict mode a report is raised as it stands with nothing collected. NOT proved: that the error raised in strict mode is the first report of the capture reading (checked on every generated document)',
+    'C20_make_bibliography': 'all of Engine.make_bibliography, hypothesis: mode is not strict: unknown reader name fails before anything is read; otherwise it is makeBibliographyArgs (C20_engine_consumes) with THAT reader\'s suffix and the explicit style (also the empty one), output_filename = os.path.splitext(aux)[0], add_output_suffix = True',
     'C20_engine_consumes': 'Engine.make_bibliography hands format_from_files exactly the denotation: first \\bibdata names + reader suffix, first \\bibstyle (or the explicit style), the citations in reading order with repeats; a fatal problem of the document is raised unchanged',
 }
 RULE = ('ES: every top-level document of <=4 (quick) / <=5 (thorough) lines over a 13-line alphabet with a fixed two-level '
@@ -48,15 +54,21 @@ RULE = ('ES: every top-level document of <=4 (quick) / <=5 (thorough) lines over
         'layouts (top file dir/t.aux or a/b/t.aux with the current directory elsewhere, includes in the current directory and in '
         'sub/, decoys next to the including file); Engine.make_bibliography with a recording format_from_files on every top-level '
         'document of <=3 / <=4 lines and on a quarter of the random cases; non-trivial = at least one command line '
-        'is read and (>=2 citation keys or a report or a nested file)')
+        'is read and (>=2 citation keys or a report or a nested file). Second round (ops auxio / auxopen / auxpath / auxconsts, props/c20_io.py): '
+        'pybtex.io.open_unicode alone on 13 names x 7 kpsewhich answers (regular file, directory, path through a file, absent); the reader and '
+        'make_bibliography over 10 layouts x 3 bodies with a kpsewhich table, \\@input of directories and of paths through files, in the modes '
+        'capture / strict / non-strict; strict and non-strict on every top-level document of <=2 / <=3 lines (one more over 7 of the 13 lines); '
+        'make_bibliography(style in None/given/empty, bib_format in None/bibtex/yaml/bibtexml/unknown) over 7 top-file names on every document of '
+        '<=2 / <=3 lines; os.path.splitext on every string of <=4 / <=5 tokens; 300 / 30000 decorated random trees')
 TRUSTED = ['str.lower is the whole-string model lowerPy of Model/UniCase.lean (per-character table, multi-character forms, final-sigma rule; tables regenerated from the running interpreter on every run)',
            'text-mode file iteration yields the lines written (lines contain no \\n or \\r); the last line with or without a newline; '
            'codecs utf-8 / latin-1 / utf-16 / utf-8-sig decode what they encoded (files are written in the encoding they are read with)',
-           'a name the file system does not have fails with ENOENT "No such file or directory" (kpsewhich absent or unsuccessful)',
-           'the model is the parse under errors.capture(); strict / non-strict reporting is C16']
+           'op aux: a name the file system does not have fails with ENOENT "No such file or directory" (kpsewhich absent or unsuccessful); ops auxio / auxopen: kpsewhich is a parameter of the model (replaced by a table in the harness), the file system is regular files / directories / absent names / paths through regular files, the strerror texts are regenerated from the interpreter',
+           'report_error is the C16 model Errors.report called where the code calls it (Model/AuxFileIO.lean reportG); that the error raised in strict mode is the first report of the capture reading is an oracle clause on every generated document, not a theorem',
+           'find_plugin for the reader is the regenerated table Gen.Aux.readerSuffix (lookup logic: C17); os.path.splitext is modelled (splitextRoot) and compared function-level']
 ASSUMPTIONS = ['file names are relative to the current directory (also those of \\@input lines inside files of subdirectories), acyclic inclusion (a file including itself recurses until Python gives up)',
                'every file decodes in the encoding handed to parse_file (undecodable bytes raise UnicodeDecodeError, a non-pybtex exception: outside the statement of C20, which is about .aux DOCUMENTS; reported to the coordinator)',
-               'an \\@input names a file of the case or a plain name absent from the current directory (directories and paths through files fail with another errno)',
+               'op aux: an \\@input names a file of the case or a plain name absent from the current directory; op auxio also directories and paths through files (EISDIR / ENOTDIR); path components are plain names (no ".", "..", "//", absolute paths)',
                'AuxDataError as repaired by proposed_fixes/C20-1.diff and C20-2.diff']
 
 # ---------------------------------------------------------------------------------------------
@@ -222,12 +234,16 @@ def _impl_match(case):
 
 
 def impl(case):
+    if case['op'] in c20_io.OPS:
+        return c20_io.impl(case)
     if case['op'] == 'auxmatch':
         return _impl_match(case)
     return _impl_aux(case)
 
 
 def to_request(case):
+    if case['op'] in c20_io.OPS:
+        return c20_io.to_request(case)
     if case['op'] == 'aux':
         # encodings, directories and the current directory are the harness's business: the model sees the decoded lines of
         # every file under the name by which parse_file / \\@input refer to it
@@ -239,6 +255,8 @@ def to_request(case):
 
 
 def model_out(case, reply):
+    if case['op'] in c20_io.OPS:
+        return c20_io.model_out(case, reply)
     out = reply['out']
     if case['op'] == 'auxmatch':
         return out
@@ -280,6 +298,8 @@ def _after_input(case, file, lineno):
 
 
 def oracle(case, impl_out, reply):
+    if case['op'] in c20_io.OPS:
+        return c20_io.oracle(case, impl_out, reply)
     spec = reply['spec']
     if case['op'] == 'auxmatch':
         fails = []
@@ -427,6 +447,8 @@ def _check_reports(case, errors, spec_errors, cites, partial=False):
 
 
 def buckets(case, impl_out):
+    if case['op'] in c20_io.OPS:
+        return c20_io.buckets(case, impl_out)
     if case['op'] == 'auxmatch':
         return ['match:' + (impl_out['groups'][0] if impl_out['groups'] else 'none')]
     b = ['files=%d' % len(case['files'])]
@@ -444,6 +466,8 @@ _CMD = re.compile(r'\\(citation|bibdata|bibstyle|@input)\{.*\}')
 
 
 def nontrivial(case, impl_out):
+    if case['op'] in c20_io.OPS:
+        return c20_io.nontrivial(case, impl_out)
     if case['op'] == 'auxmatch':
         return '\\' in case['s'] and '{' in case['s']
     lines = [l for _n, ls in case['files'] for l in ls]
@@ -492,6 +516,8 @@ ENCODINGS = (None, 'utf-8', 'latin-1', 'utf-16', 'utf-8-sig')
 
 
 def valid_case(case):
+    if case.get('op') in c20_io.OPS:
+        return c20_io.valid_case(case)
     if case.get('op') == 'auxmatch':
         return isinstance(case.get('s'), str)
     if case.get('op') != 'aux':
@@ -851,6 +877,7 @@ def gen_cases(tier, rng, info):
         eng.append(_mk(files, mode='engine'))
     counts['make_bibliography top<=%d' % (3 if tier == 'quick' else 4)] = len(eng)
     cases += ue + dr + eng
+    cases += c20_io.gen_cases(tier, rng, info, counts)
     info['exhaustive'] = True
     info['scope'] = ('exhaustive: %r over the 13-line alphabet %r; nested chain %r / %r; frames %r; non-ASCII alphabet %r (UTF-8) and latin-1 '
                      'alphabet %r in the encodings %r; directory layouts: top file dir/t.aux or a/b/t.aux, includes in the current directory, '
@@ -886,4 +913,7 @@ LEVEL_NOTE = ('Trusted: Lean kernel; axioms propext/Classical.choice/Quot.sound 
               'Case mismatches are reported against the MOST RECENT spelling (what the code does), which differs in the number of reports from the property wording "cited in two different spellings" '
               '(a, A, a: two reports); C20_two_spellings_reported proves the two readings agree on whether a key is reported at all. The domain predicates closedDepth / depthOk of the main theorems are defined '
               'with the model matcher (inputsOf -> matchCommand), relative to which C20_command_shape proves the classification equal to Spec.classify (argOf characterised separately by argOf_shape). '
-              'The model follows AuxDataError as repaired by proposed_fixes/C20-1.diff + C20-2.diff.')
+              'The model follows AuxDataError as repaired by proposed_fixes/C20-1.diff + C20-2.diff. '
+              'Second round: pybtex.io.open_unicode / _open / _open_existing (kpsewhich = parameter), report_error in the three modes (through Errors.report of C16) and all of '
+              'Engine.make_bibliography (style argument, reader suffix, output_filename) are inside the model (Model/AuxFileIO.lean; C20_open_unicode, C20_reports_located_io, C20_modes, '
+              'C20_make_bibliography); the texts the model hard-codes are proved equal to the regenerated ones (C20_tables_agree); coverage/C20.md lists function by function what is tied how.')
